@@ -376,6 +376,7 @@ def C07(c):
             out += explore2("%s_n%ds%d_reuse" % (kind, n, s_), kind, n, s_, th2, c, mr, rr, seed_extra=7, pre_streams=s_)
         return out
     run_uni(c, UNI_KINDS, build, checks)
+    C07_multi(c)
 
 
 def resv_histories(seed, count, length, n):
@@ -458,6 +459,7 @@ def C16(c):
             out += explore2("%s_n%d_collide" % (kind, n), kind, n, 1, th, c, mr, rr)
         return out
     run_uni(c, UNI_KINDS, build, checks, relax_kf=True)
+    C16_multi(c)
 
 
 def C20(c):
@@ -478,6 +480,7 @@ def C20(c):
             out += explore2("%s_n%ds%d_later" % (kind, n, s_), kind, n, s_, th3, c, mr, rr, seed_extra=5, pre_streams=s_)
         return out
     run_uni(c, UNI_KINDS, build, checks, expect_stalls=True)
+    C20_multi(c)
 
 
 def C05_uni(c):
@@ -607,7 +610,7 @@ def C10(c):
 def C17(c):
     quick = c.tier == "quick"
     mr, rr = (200, 150) if quick else (4000, 3000)
-    checks = MULTI_DELIVERY + ["InvCapacityRestored", "InvDestroyedAtMostOnce"]
+    checks = ["InvNoUseAfterFree"] + MULTI_DELIVERY + ["InvCapacityRestored", "InvDestroyedAtMostOnce"]
 
     def build(kind):
         out = []
@@ -626,4 +629,108 @@ def C17(c):
     run_multi(c, MULTI_KINDS, build, checks, procs=5)
 
 
-CHECKS = {"C03": C03, "C10": C10, "C17": C17, "C04": C04, "C07": C07, "C08": C08, "C16": C16, "C20": C20, "C02": C02, "C13": C13, "C18": C18, "C15": C15, "C01": C01}
+def C05(c):
+    C05_uni(c)
+    quick = c.tier == "quick"
+    mr, rr = (150, 100) if quick else (3000, 2000)
+    checks = ["InvDestroyedAtMostOnce", "InvDestroyedExactlyOnce", "InvNoUseAfterFree", "InvCapacityRestored", "InvNoInvention", "NoPanic"]
+
+    def build(kind):
+        out = []
+        n, s_ = 4, 2
+        probe = n if kind in MULTI_OGRE else None
+        # two listeners, handles held and released on other threads, teardown with events still buffered
+        th = [[S(11), SW(12), S(13)], [POLL(0, hold=True), POLL(0, hold=True)], [POLL(1, hold=True), RELALL], [RELALL]]
+        for drain in (True, False):
+            for sc in explore2("%s_%s" % (kind, "drain" if drain else "leftovers"), kind, n, s_, th, c, mr, rr, pre_streams=2, drain=drain):
+                if probe is not None and drain:
+                    sc["probe"] = probe
+                out.append(sc)
+        # sequential: everything consumed and released, then BUFFER_SIZE events are accepted again
+        ops = [S(10 + i) for i in range(3)] + [POLL(0, hold=True)] * 3 + [POLL(1)] * 3 + [RELALL]
+        sc = cscn("%s_refill" % kind, kind, n, s_, [ops], dfs(0, 1), pre_streams=2)
+        if probe is not None:
+            sc["probe"] = probe
+        out.append(sc)
+        return out
+    run_multi(c, MULTI_NONLOG, build, checks, procs=4)
+
+
+def C07_multi(c):
+    quick = c.tier == "quick"
+    mr, rr = (150, 100) if quick else (3000, 2000)
+
+    def build(kind):
+        out = []
+        n = 4
+        for s_, nl in ((2, 2), (4, 3)):
+            cons = [[DRIVE(i), DROPS(i), op("running")] for i in range(nl)]
+            th = [[S(11), SW(12)], [CANCEL_ALL]] + cons
+            out += explore2("%s_s%dl%d_cancel" % (kind, s_, nl), kind, n, s_, th, c, mr, rr, pre_streams=nl)
+        return out
+    run_multi(c, MULTI_KINDS, build, ["InvCancelEndsStreams", "InvAtMostOncePerListener", "InvNoInvention", "InvRunningCount", "NoPanic"], procs=5)
+
+
+def C09(c):
+    quick = c.tier == "quick"
+    mr, rr = (250, 200) if quick else (5000, 4000)
+    checks = MULTI_DELIVERY + ["InvSameTotalOrder", "InvSplitPartitions"]
+
+    def build(kind):
+        out = []
+        n = 4
+        # two publishers racing with late subscriptions of every implemented kind; listeners consume at their own pace
+        for how, nm in (("joined", "joined"), ("split", "split"), ("new", "new")):
+            extra = [DRIVE(1, max_=4)] if how != "split" else [DRIVE(1), DRIVE(2, max_=4)]
+            th = [[S(11), SW(12)], [SW(21, False), S(22)], [CREATE(how)] + extra, [DRIVE(0, max_=4)]]
+            out += explore2("%s_%s" % (kind, nm), kind, n, 4, th, c, mr, rr, seed_extra=len(nm), pre_streams=["new"])
+        # histories: sends, then late subscriptions, then more sends
+        ops = [S(11), S(12), CREATE("joined"), S(13), CREATE("split"), S(14), S(15)] + [POLL(1)] * 6 + [POLL(2)] * 5 + [POLL(3)] * 3 + [POLL(0)] * 6
+        out.append(cscn("%s_hist" % kind, kind, n, 4, [ops], dfs(0, 1), pre_streams=["new"]))
+        return out
+    run_multi(c, ["multi_mmap"], build, checks, procs=4)
+
+
+def C16_multi(c):
+    quick = c.tier == "quick"
+    mr, rr = (150, 100) if quick else (3000, 2000)
+
+    def build(kind):
+        out = []
+        n, s_ = 4, 2
+        ops = []
+        v = 10
+        for cyc in range(3):
+            for _ in range(n):
+                v += 1
+                ops.append(S(v))
+            ops += [S(v + 100), SW(v + 101), SA(v + 102, 1), RSV]                       # all rejected: the pool is exhausted
+            ops += [POLL(0)] * n + [POLL(1)] * n                                         # both listeners consume (and release)
+            v += 200
+        sc = cscn("%s_cycles" % kind, kind, n, s_, [ops], dfs(0, 1), pre_streams=2)
+        sc["probe"] = n
+        out.append(sc)
+        th = [[S(11), S(12), S(13)], [SW(21), SW(22, False)], [SA(31, 1), S(32)], [POLL(0), POLL(0)], [POLL(1)]]
+        for sc in explore2("%s_collide" % kind, kind, n, s_, th, c, mr, rr, pre_streams=2):
+            sc["probe"] = n
+            out.append(sc)
+        return out
+    run_multi(c, MULTI_OGRE, build, ["InvRejectedSetterUninvoked", "InvAtMostOncePerListener", "InvNoInvention", "InvAllDelivered", "InvCapacityRestored", "InvNoStall", "NoPanic"], procs=5)
+
+
+def C20_multi(c):
+    quick = c.tier == "quick"
+    mr, rr = (120, 80) if quick else (2500, 1500)
+
+    def build(kind):
+        out = []
+        n, s_ = 4, 2
+        th = [[SA(11, -1)], [S(21), SW(22)], [DRIVE(0, max_=2)], [POLL(1), POLL(1)]]
+        out += explore2("%s_never" % kind, kind, n, s_, th, c, mr, rr, pre_streams=2)
+        th3 = [[SA(11, 3)], [S(21), SW(22)], [DRIVE(0, max_=3)], [DRIVE(1, max_=3)]]
+        out += explore2("%s_later" % kind, kind, n, s_, th3, c, mr, rr, seed_extra=5, pre_streams=2)
+        return out
+    run_multi(c, MULTI_NONLOG, build, ["InvNoStall", "InvNoLostWakeup", "InvAtMostOncePerListener", "InvNoInvention", "NoPanic"], procs=4, expect_stalls=True)
+
+
+CHECKS = {"C05": C05, "C09": C09, "C03": C03, "C10": C10, "C17": C17, "C04": C04, "C07": C07, "C08": C08, "C16": C16, "C20": C20, "C02": C02, "C13": C13, "C18": C18, "C15": C15, "C01": C01}
